@@ -231,8 +231,8 @@ def do_replay(ctx, dev):
             return
 
 
-def trace_cfg(dev, ga):
-    text = open(os.path.join(vf.SPEC, "Metrics_Trace.cfg")).read()
+def trace_cfg(dev, ga, lossy=False):
+    text = open(os.path.join(vf.SPEC, "Metrics_Trace.cfg")).read().replace("FlushLossy = FALSE", "FlushLossy = " + tf(lossy))
     text = text.replace("LocalCounted = FALSE", "LocalCounted = " + tf(dev["lc"])).replace("NotfoundCountsTcp = TRUE", "NotfoundCountsTcp = " + tf(dev["nt"]))
     text = text.replace("ConnAtAccept = TRUE", "ConnAtAccept = " + tf(dev["ca"])).replace("GaugeAtomic = FALSE", "GaugeAtomic = " + tf(ga))
     extra = ""
@@ -243,8 +243,8 @@ def trace_cfg(dev, ga):
     return text.replace("TOneStatusEach", "TOneStatusEach" + extra)
 
 
-def validate(ctx, trace, dev, ga):
-    r = ctx.tlc("Metrics_Trace", cfg_text=trace_cfg(dev, ga), workers=1, env={"VERIF_TRACE": trace}, timeout=900, extra=["-nowarning"])
+def validate(ctx, trace, dev, ga, lossy=False):
+    r = ctx.tlc("Metrics_Trace", cfg_text=trace_cfg(dev, ga, lossy), workers=1, env={"VERIF_TRACE": trace}, timeout=900, extra=["-nowarning"])
     if r.timed_out or r.error:
         ctx.inconclusive("trace validation did not complete: %s" % (r.error or "timeout"))
         return None
@@ -269,20 +269,24 @@ def do_concurrent(ctx, dev):
             return
         s = g.summary
         ctx.take_failures(g, "concurrent")
-        r = validate(ctx, s["trace"], dev, True)
-        if r is None:
-            return
-        atomic = r.ok
-        if not r.ok:
-            # the documented gauge was refuted by this run; the code's two-step gauge must explain it
-            r = validate(ctx, s["trace"], dev, False)
+        # strictest design first; a named deviation is admitted only when the run refutes the documented behaviour
+        r, atomic, lossy = None, True, False
+        for ga, ls in ((True, False), (False, False), (True, True), (False, True)):
+            r = validate(ctx, s["trace"], dev, ga, ls)
             if r is None:
                 return
+            atomic, lossy = ga, ls
             if r.ok:
-                ctx.log("lead: concurrent run %d is not a behaviour of the documented (atomic) ws.conn gauge, it is one of the add-then-set gauge" % k)
+                break
+        if r.ok and not atomic:
+            ctx.log("lead: concurrent run %d is not a behaviour of the documented (atomic) ws.conn gauge, it is one of the add-then-set gauge" % k)
+        if r.ok and lossy:
+            ctx.log("lead: concurrent run %d: the statsd provider shows FEWER events than were accounted (prometheus and stdout are exact): a flush that runs while "
+                    "requests are accounted loses observations (go-kit lv.Space.Observe appends outside the lock Reset takes); statsd_raw, graphite and dogstatsd share it" % k)
         ctx.log("concurrent run %d: %d clients, %d exchanges, %d swaps, %d provider reads, %d events, %d states: %s%s (%.0fs + %.0fs)"
                 % (k, s["clients"], s["ops"], s["swaps"], s["snapshots"], s["events"], r.distinct,
-                   "accepted" if r.ok else "REJECTED (%s)" % r.violated, "" if atomic or not r.ok else " [GaugeAtomic=FALSE]", g.wall, r.wall))
+                   "accepted" if r.ok else "REJECTED (%s)" % r.violated,
+                   ("" if atomic or not r.ok else " [GaugeAtomic=FALSE]") + (" [FlushLossy=TRUE]" if lossy and r.ok else ""), g.wall, r.wall))
         if r.ok:
             ctx.cover("trace", traces_validated_against_impl=1, states=r.distinct, transitions=r.generated, evaluations=s["ops"] + s["snapshots"])
         else:
@@ -309,7 +313,7 @@ def do_concurrent(ctx, dev):
                     continue
                 p = os.path.join(ctx.tmp, "x05.bad.ndjson")
                 open(p, "w").write("\n".join(b) + "\n")
-                r2 = validate(ctx, p, dev, False)
+                r2 = validate(ctx, p, dev, False, True)
                 if r2 is None:
                     return
                 if r2.ok:
